@@ -322,8 +322,8 @@ void apply(point<S> *d, const linepart &pt, const S *src, const value_apply &v)
 	S mx(v.to.x * v.add);
 	S my(v.to.y * v.add);
 	for (size_t i = 0; i < pt.usr; ++i) {
-		d->x += mx;
-		d->y += my;
+		d[i].x += mx;
+		d[i].y += my;
 	}
 	const point<S> scale(v.to.x * v.scale, v.to.y * v.scale);
 	apply<point<S>, S>(d, pt, src, scale);
